@@ -171,7 +171,7 @@ class C06(Check):
             "depth 2 = (T op L), (L op T), -(T), -(-L), list nesting over 8 leaves; depth 3 (thorough) = ((L op L) op L) op L and "
             "mirrored shapes over 4 leaves; literal spellings = 34 alternative spellings (hexadecimal, digit separators, leading zeros, "
             "f suffix, B-prefixed hexadecimal) alone, negated, in a list and as either operand of every operator, folded in that spelling vs. unfolded "
-            "over variables initialised with the canonical literal.  Each tree is run folded and unfolded.  Non-trivial = both renderings are accepted "
+            "over variables initialised with the canonical literal.  Sequences: for 3 digit pairs x 10 operators, the 16 (9) kind combinations of the same digits and the negations, evaluated one after the other in ONE compilation, in every rotation and reversed (what the compiler keeps between two evaluations must not leak).  Each tree is run folded and unfolded.  Non-trivial = both renderings are accepted "
             "by the type checker or exactly one fails; distinct = distinct trees.")
     assumptions = ["dev profile", "kind observed through hook H2", "float digits compared by value (shortest-digit ties)"]
     chunksize = 32
@@ -268,7 +268,23 @@ class C06(Check):
                 yield ("bin", "==", a, ("L", ("opt", None)))
                 yield ("bin", "!=", ("L", ("opt", None)), a)
 
-        ls = [("L0-depth1", d1()), ("Lo-optional-trees-or-get-nil", optionals()), ("Lf-literal-spellings", forms()), ("Lm-most-negative-values-and-negative-pairs", extremes())]
+        def sequences():
+            # CONTEXT INDEPENDENCE: literal expressions that differ only in the KINDS of their operands (same digits, same operator), evaluated one after
+            # the other in one compilation, in every rotation of the sequence (each of them comes first once); whatever the compiler keeps
+            # between two evaluations must not leak from one into the next
+            K = ["int", "bigint", "byte", "float"]
+            for a, b in ((2, 1), (20, 10), (7, 2)):
+                for op in ["+", "-", "*", "/", "%", "&", "|", "xor", "<<", ">>"]:
+                    ks = K if op in ("+", "-", "*", "/", "%") else K[:3]
+                    if op in ("<<", ">>") and b > 7:
+                        continue
+                    trees = [("bin", op, ("L", (k1, float(a) if k1 == "float" else a)), ("L", (k2, float(b) if k2 == "float" else b))) for k1 in ks for k2 in ks]
+                    trees += [("neg", ("L", (k, float(a) if k == "float" else a))) for k in ("int", "bigint", "float")]
+                    for r in range(len(trees)):
+                        yield ("seq", tuple(trees[r:] + trees[:r]))
+                    yield ("seq", tuple(reversed(trees)))
+
+        ls = [("L0-depth1", d1()), ("Ls-sequences-of-same-digit-expressions-of-different-kinds-in-one-compilation", sequences()), ("Lo-optional-trees-or-get-nil", optionals()), ("Lf-literal-spellings", forms()), ("Lm-most-negative-values-and-negative-pairs", extremes())]
         if tier == "quick":
             def d2q():
                 for i, t in enumerate(d2()):
@@ -281,9 +297,40 @@ class C06(Check):
         return ls
 
     def describe(self, case):
+        if case[0] == "seq":
+            return {"sequence": [render(t, None) for t in case[1]]}
         return {"folded": render(case, None)}
 
+    def run_seq(self, case):
+        import re
+        fl, ul = [], []
+        for i, t in enumerate(case[1]):
+            f, u = programs(t)
+            fl.append(f)
+            ul.append(re.sub(r"\bv(\d+)\b", lambda m: f"s{i}v{m.group(1)}", u))
+        f, u = "".join(fl), "".join(ul)
+        env = {"MSCRIPT_VERIF_TYPED_PRINT": "1"}
+        rf = driver.run_ms(f, env=env)
+        ru = driver.run_ms(u, env=env)
+        detail = {"files": {"folded.ms": f, "unfolded.ms": u}, "folded": rf.brief(), "unfolded": ru.brief()}
+        viol = []
+        if ru.exit != 0:
+            # the sequences are built from expressions that evaluate without failure over variables; if not, the layer is mis-built
+            return {"outcome": "seq-unfolded-fails", "nontrivial": False, "tags": ["seq", "seq-unfolded-fails"], "show": ru.err[-200:]}
+        if rf.exit != 0:
+            viol.append({"sig": {"kind": "sequence-folded-fails", "first": render(case[1][0], None)},
+                         "what": f"a sequence of literal expressions that all evaluate over variables does not compile / run folded: {(rf.out + rf.err)[-300:]}", "detail": detail})
+        elif not same_lines(rf.lines(), ru.lines()):
+            a, b = rf.lines(), ru.lines()
+            k = next((i for i in range(min(len(a), len(b))) if not same_lines(a[i:i + 1], b[i:i + 1])), 0)
+            viol.append({"sig": {"kind": "sequence-differs", "expr": render(case[1][k // 2], None), "first": render(case[1][0], None)},
+                         "what": f"in a sequence starting with {render(case[1][0], None)}, {render(case[1][k // 2], None)} folds to {a[k:k + 1]} but evaluates to {b[k:k + 1]} over variables",
+                         "detail": detail})
+        return {"outcome": "seq-ok" + ("-DIFF" if viol else ""), "viol": viol, "nontrivial": True, "tags": ["seq"]}
+
     def run_case(self, case):
+        if case[0] == "seq":
+            return self.run_seq(case)
         f, u = programs(case)
         env = {"MSCRIPT_VERIF_TYPED_PRINT": "1"}
         rf = driver.run_ms(f, env=env)
